@@ -43,10 +43,67 @@ theorem hashData_eq {F : Type} (m : Marker F) :
 
 theorem keyOf_eq {F : Type} (m : Marker F) : keyOf m = some [(m.blobber : Int), m.client, m.alloc] := rfl
 
+/-- the storage key of a marker (the list `keyOf` computes from the extracted `keyFields`). -/
+abbrev keyM {F : Type} (m : Marker F) : Key := [(m.blobber : Int), m.client, m.alloc]
+
+
+/-- the accepted redemptions of one key, in order, form a chain of counter increments starting at `c0`, each
+charged the price of its own increment. -/
+def Chain (c0 : Int) : List Entry → Int → Prop
+  | [], c => c = c0
+  | e :: es, c => e.fromCtr = c0 ∧ e.fromCtr ≤ e.toCtr ∧ chargeOf e.price (e.toCtr - e.fromCtr) = some e.value ∧
+      Chain e.toCtr es c
+
+def total (es : List Entry) : Nat := (es.map (·.value)).sum
+
+
+/-- a chain never goes down. -/
+theorem Chain.le {c0 c : Int} {es : List Entry} (h : Chain c0 es c) : c0 ≤ c := by
+  induction es generalizing c0 with
+  | nil => simp [Chain] at h; omega
+  | cons e es ih =>
+    obtain ⟨h1, h2, _, h4⟩ := h
+    have := ih h4
+    omega
+
+
 /-! ## inversion of a successful redemption -/
 
 section
 variable {F : Type} [Mul F] [Zero F] [DecidableEq F]
+
+theorem bind_ok {ε α β : Type} (x : Except ε α) (f : α → Except ε β) (b : β) :
+    (x >>= f) = .ok b ↔ ∃ a, x = .ok a ∧ f a = .ok b := by
+  cases x with
+  | error e => simp [bind, Except.bind]
+  | ok a => simp [bind, Except.bind]
+
+theorem need_ok (c : Bool) (e : Err) (u : Unit) : need c e = .ok u ↔ c = true := by
+  cases c <;> simp [need]
+
+theorem getOr_ok {α : Type} (o : Option α) (e : Err) (a : α) : getOr o e = .ok a ↔ o = some a := by
+  cases o <;> simp [getOr]
+
+theorem mapErr_ok {ε α : Type} (x : Except ε α) (e : Err) (a : α) : mapErr x e = .ok a ↔ x = .ok a := by
+  cases x <;> simp [mapErr]
+
+theorem bind_unit_ok {ε β : Type} (x : Except ε Unit) (f : Unit → Except ε β) (b : β) :
+    (x >>= f) = .ok b ↔ x = .ok () ∧ f () = .ok b := by
+  cases x with
+  | error e => simp [bind, Except.bind]
+  | ok a => simp [bind, Except.bind]
+
+theorem verify_ok {cr : Crypto F} {m : Marker F} {prev : Option (Marker F)} (h : verify cr m prev = .ok ()) :
+    0 < m.ctr ∧ m.blobber ≠ 0 ∧ m.client ≠ 0 ∧ m.ts ≠ 0 ∧
+    (∀ p, prev = some p → m.client = p.client ∧ m.blobber = p.blobber ∧ p.ctr ≤ m.ctr) ∧ verifySig cr m = true := by
+  unfold verify at h
+  simp only [bind_unit_ok, need_ok, Bool.not_eq_true', decide_eq_false_iff_not, not_or] at h
+  obtain ⟨⟨h1, h2, h3, h4⟩, hp, hs⟩ := h
+  refine ⟨by omega, h2, h3, h4, ?_, hs⟩
+  intro p hpe
+  subst hpe
+  simp only [prevBad, ne_eq, decide_eq_false_iff_not, not_or, Decidable.not_not, Int.not_lt] at hp
+  exact hp
 
 /-- everything a successful `commit` went through. -/
 structure CommitOk (cr : Crypto F) (s : St F) (m : Marker F) (s' : St F) (v : Nat) : Prop where
@@ -65,21 +122,6 @@ structure CommitOk (cr : Crypto F) (s : St F) (m : Marker F) (s' : St F) (v : Na
                         bas := setBA al.bas { d with readReward := rr, numReads := d.numReads + 1 } }
             last := aSet s.last [(m.blobber : Int), m.client, m.alloc] m }
 
-theorem bind_ok {ε α β : Type} (x : Except ε α) (f : α → Except ε β) (b : β) :
-    (x >>= f) = .ok b ↔ ∃ a, x = .ok a ∧ f a = .ok b := by
-  cases x with
-  | error e => simp [bind, Except.bind]
-  | ok a => simp [bind, Except.bind]
-
-theorem need_ok (c : Bool) (e : Err) (u : Unit) : need c e = .ok u ↔ c = true := by
-  cases c <;> simp [need]
-
-theorem getOr_ok {α : Type} (o : Option α) (e : Err) (a : α) : getOr o e = .ok a ↔ o = some a := by
-  cases o <;> simp [getOr]
-
-theorem mapErr_ok {ε α : Type} (x : Except ε α) (e : Err) (a : α) : mapErr x e = .ok a ↔ x = .ok a := by
-  cases x <;> simp [mapErr]
-
 theorem commit_inv {cr : Crypto F} {s s' : St F} {m : Marker F} {v : Nat}
     (h : commit cr s m = .ok (s', v)) : CommitOk cr s m s' v := by
   unfold commit at h
@@ -88,6 +130,58 @@ theorem commit_inv {cr : Crypto F} {s s' : St F} {m : Marker F} {v : Nat}
   obtain ⟨hcid, _, u, hver, al, hal, hstart, hexp, _, _, d, hd, sp, hsp, value, hval, hbal, _, sp', hdist, rr, hrr, hs, hv⟩ := h
   subst hv
   exact ⟨hcid, hver, al, d, sp, sp', rr, hal, hstart, hexp, hd, hsp, hval, hbal, hdist, hrr, hs.symm⟩
+
+theorem commit_ctr_le {cr : Crypto F} {s s' : St F} {m : Marker F} {v : Nat}
+    (h : commit cr s m = .ok (s', v)) : s.lastCtr (keyM m) ≤ m.ctr ∧ 0 < m.ctr := by
+  obtain ⟨_, hver, _⟩ := commit_inv h
+  obtain ⟨hpos, _, _, _, hprev, _⟩ := verify_ok hver
+  refine ⟨?_, hpos⟩
+  unfold St.lastCtr
+  cases hl : aGet s.last (keyM m) with
+  | none => simp; omega
+  | some p => simp; exact (hprev p hl).2.2
+
+
+omit [Mul F] [Zero F] [DecidableEq F] in
+theorem lock_last {s s' : St F} {a t v : Nat} (h : lock s a t v = .ok s') : s'.last = s.last := by
+  unfold lock at h
+  split at h; · cases h
+  split at h; · cases h
+  split at h; · cases h
+  split at h; · cases h
+  split at h
+  · cases h
+  · injection h with h; subst h; rfl
+
+omit [Mul F] [Zero F] [DecidableEq F] in
+theorem unlock_last {s s' : St F} {a b : Nat} (h : unlock s a = .ok (s', b)) : s'.last = s.last := by
+  unfold unlock at h
+  split at h; · cases h
+  split at h
+  · cases h
+  · injection h with h; injection h with h1 h2; subst h1; rfl
+
+
+theorem step_commit_ok {cr : Crypto F} {s s' : St F} {m : Marker F} {v : Nat} (h : commit cr s m = .ok (s', v)) :
+    step cr s (.commit m) =
+      (s', some ⟨[(m.blobber : Int), m.client, m.alloc], m.client, priceFor s m, s.lastCtr [(m.blobber : Int), m.client, m.alloc], m.ctr, v⟩) := by
+  simp [step, h, keyOf_eq]
+
+theorem step_commit_err {cr : Crypto F} {s : St F} {m : Marker F} {e : Err} (h : commit cr s m = .error e) :
+    step cr s (.commit m) = (s, none) := by
+  simp [step, h]
+
+theorem step_lock_ok {cr : Crypto F} {s s' : St F} {a t v : Nat} (h : lock s a t v = .ok s') :
+    step cr s (.lock a t v) = (s', none) := by simp [step, h]
+
+theorem step_lock_err {cr : Crypto F} {s : St F} {a t v : Nat} {e : LockErr} (h : lock s a t v = .error e) :
+    step cr s (.lock a t v) = (s, none) := by simp [step, h]
+
+theorem step_unlock_ok {cr : Crypto F} {s s' : St F} {a b : Nat} (h : unlock s a = .ok (s', b)) :
+    step cr s (.unlock a) = (s', none) := by simp [step, h]
+
+theorem step_unlock_err {cr : Crypto F} {s : St F} {a : Nat} {e : LockErr} (h : unlock s a = .error e) :
+    step cr s (.unlock a) = (s, none) := by simp [step, h]
 
 end
 
